@@ -8,7 +8,12 @@ Layered on `Model/Mux.lean` (matching + the cache-less `search`). Mirrors, line 
 * `muxInstance.search` **with** `cache != nil`: the cache-hit branch (`hit`), the miss path with the
   `consulted` filter list and its three `putRouteToCache` sites (`searchPathsC`, `searchRulesC`,
   `searchMiss`), and the glue (`searchCached`);
-* a request history against one `muxInstance` generation (`runCached`).
+* a request history against one `muxInstance` generation (`runCached`);
+* (Extension mux) `newMux` / `mux.reload` as far as routing goes — new configuration, **fresh** cache or none
+  (`reload`, `Inst.search`) — and histories of requests and in-place reloads on one mux (`Op`, `runOps`,
+  reference `refOps`); `reloadKeep` / `runOpsKeep` model a *wrong* reload that carries the cache over
+  (witness and sig classification only); `GoRoute`, `routeGo`, `CRoute.go`: glue for the regenerated
+  translation of `search` (`Gen/FactsMuxIR.lean`).
 
 The top level namespace models the **repaired** code (`fixes/C12-cache-transparency.patch`):
 struct key `{host, method, path}`; a header-less path is cached only while `headerMismatch` is still
@@ -189,5 +194,141 @@ def runCached (o : Oracle) (c : Cfg) (ev : Nat → String → Bool) (reqs : List
   runFrom o c ev 0 [] reqs
 
 end Old
+
+/-! ## Reloads: a history of operations on one `mux` object (Extension mux)
+
+`mux.reload(superSpec, mapper)` — called by `runtime.reload` on the *same* `mux` for an in-place update of
+the HTTPServer — builds a new `muxInstance` from the new spec and publishes it with `m.inst.Store`. The
+part of it that matters for routing: the new instance carries the new spec's filters / rules, and
+
+```go
+if spec.CacheSize > 0 { arc, err := lru.NewARC(int(spec.CacheSize)); …; inst.cache = arc }
+```
+
+i.e. its **own, empty** ARC cache (or none). Nothing of the previous instance's cache is carried over.
+`newMux` publishes an instance with an empty spec and no cache. A history is a sequence of `Op`s applied
+to the mux one after the other (requests in flight on the old instance while a reload happens are C11's
+matter). -/
+
+/-- What `mux.reload` takes from the new spec for routing: the filters and rules (`cfg`) and whether
+`spec.CacheSize > 0` (the size itself is covered by the eviction oracle). -/
+structure GenSpec where
+  cfg : Cfg
+  cacheOn : Bool
+deriving Repr, DecidableEq
+
+/-- One operation on a `mux`: `ServeHTTP` (up to the routing decision) or `reload`. -/
+inductive Op where
+  | request (q : Req)
+  | reload (g : GenSpec)
+deriving Repr, DecidableEq
+
+/-- The published `*muxInstance`: its configuration and its own cache (`none`: `mi.cache == nil`). -/
+structure Inst where
+  cfg : Cfg
+  cache : Option Cache
+deriving Repr, DecidableEq
+
+/-- `newMux`: `spec: &Spec{}`, no cache. -/
+def newMux : Inst := ⟨{}, none⟩
+
+/-- `mux.reload`: a new instance with the new configuration and a **fresh** cache. -/
+def reload (g : GenSpec) : Inst := ⟨g.cfg, if g.cacheOn then some [] else none⟩
+
+/-- `muxInstance.search` on the published instance. With `cache == nil`, `getRouteFromCache` returns nil
+and `putRouteToCache` does nothing: the miss path runs and its put is dropped. -/
+def Inst.search (o : Oracle) (ev : Key → Bool) (i : Inst) (q : Req) : Route × Inst :=
+  match i.cache with
+  | none => ((searchMiss o i.cfg q).1, i)
+  | some cache => ((searchCached o i.cfg ev cache q).1, ⟨i.cfg, some (searchCached o i.cfg ev cache q).2⟩)
+
+/-- A history of operations from instance `i`; `n` = number of requests served so far (index of the
+eviction oracle). One route per `request`. -/
+def runOps (o : Oracle) (ev : Nat → Key → Bool) : Nat → Inst → List Op → List Route
+  | _, _, [] => []
+  | n, _, .reload g :: ops => runOps o ev n (reload g) ops
+  | n, i, .request q :: ops => (i.search o (ev n) q).1 :: runOps o ev (n + 1) (i.search o (ev n) q).2 ops
+
+/-- Every request of a history paired with the configuration current when it is served. -/
+def reqCfgs : Cfg → List Op → List (Cfg × Req)
+  | _, [] => []
+  | _, .reload g :: ops => reqCfgs g.cfg ops
+  | c, .request q :: ops => (c, q) :: reqCfgs c ops
+
+/-- Reference: every request answered by the cache-less search under the configuration current at that point. -/
+def refOps (o : Oracle) (c : Cfg) (ops : List Op) : List Route :=
+  (reqCfgs c ops).map (fun p => search o p.1 p.2)
+
+/-- Per request: does the current instance's cache hold its key (before the eviction oracle)? -/
+def residentOps (o : Oracle) (ev : Nat → Key → Bool) : Nat → Inst → List Op → List Bool
+  | _, _, [] => []
+  | n, _, .reload g :: ops => residentOps o ev n (reload g) ops
+  | n, i, .request q :: ops =>
+    (match i.cache with
+     | none => false
+     | some cache => (cache.lookup (keyOf q)).isSome) :: residentOps o ev (n + 1) (i.search o (ev n) q).2 ops
+
+/-- A **wrong** reload (not the code's): the previous instance's cache is kept when both generations
+have one. Used only for the witness that transparency across reloads needs the fresh cache, and by
+the judge to name that class of divergence. -/
+def reloadKeep (i : Inst) (g : GenSpec) : Inst :=
+  ⟨g.cfg, if g.cacheOn then some (i.cache.getD []) else none⟩
+
+def runOpsKeep (o : Oracle) (ev : Nat → Key → Bool) : Nat → Inst → List Op → List Route
+  | _, _, [] => []
+  | n, i, .reload g :: ops => runOpsKeep o ev n (reloadKeep i g) ops
+  | n, i, .request q :: ops => (i.search o (ev n) q).1 :: runOpsKeep o ev (n + 1) (i.search o (ev n) q).2 ops
+
+/-- `residentOps` for the wrong reload. -/
+def residentOpsKeep (o : Oracle) (ev : Nat → Key → Bool) : Nat → Inst → List Op → List Bool
+  | _, _, [] => []
+  | n, i, .reload g :: ops => residentOpsKeep o ev n (reloadKeep i g) ops
+  | n, i, .request q :: ops =>
+    (match i.cache with
+     | none => false
+     | some cache => (cache.lookup (keyOf q)).isSome) :: residentOpsKeep o ev (n + 1) (i.search o (ev n) q).2 ops
+
+/-! ## Glue for the regenerated translation of `muxInstance.search` (`Gen/FactsMuxIR.lean`, notes/IR.md)
+
+The go/ast → Lean translator works on the Go data as the code sees it: a `route` has no rule / path
+indices, an IP filter is a nil-able pointer, the returned value is a `*route`. These definitions say
+how that view corresponds to `Route` / `CRoute`. -/
+
+/-- Go's `route{code, path, ipFilters}`. -/
+structure GoRoute where
+  code : Int
+  path : Option PathEntry
+  ipFilters : List (Option Nat)
+deriving Repr, DecidableEq
+
+/-- `r.ipFilters` of a `*route` (only read under `r != nil`). -/
+def routeFilters (r : Option GoRoute) : List (Option Nat) :=
+  match r with
+  | some x => x.ipFilters
+  | none => []
+
+/-- `r.code` of a `*route` (only read on the package-level routes). -/
+def routeCode (r : Option GoRoute) : Int :=
+  match r with
+  | some x => x.code
+  | none => 0
+
+/-- What `serveHTTP` reads of the returned `*route`: `code` and `path`. -/
+def routeRes (r : Option GoRoute) : Int × Option PathEntry :=
+  match r with
+  | some x => (x.code, x.path)
+  | none => (0, none)
+
+/-- result of the translated `search`: (code, path) of the returned route, and the route handed to
+`putRouteToCache` (the last one, if any) -/
+abbrev SearchRes := (Int × Option PathEntry) × Option GoRoute
+
+/-- a model route as the Go code returns it -/
+def routeGo : Route → Int × Option PathEntry
+  | .code c => (c, none)
+  | .path _ _ e => (0, some e)
+
+/-- a cached model route as the Go code stores it -/
+def CRoute.go (r : CRoute) : GoRoute := ⟨(routeGo r.route).1, (routeGo r.route).2, r.filters.map some⟩
 
 end EgVerif.MuxCache
